@@ -4,6 +4,10 @@ import (
 	"encoding/json"
 	"errors"
 	"fmt"
+	"github.com/google/fhir/go/jsonformat"
+	dtpb "github.com/google/fhir/go/proto/google/fhir/proto/r4/core/datatypes_go_proto"
+	ppb "github.com/google/fhir/go/proto/google/fhir/proto/r4/core/resources/patient_go_proto"
+	"github.com/verily-src/fhirpath-go/internal/element/reference"
 	"math/big"
 	"sort"
 	"strings"
@@ -354,6 +358,37 @@ func c02Shape(root *c02Node, names []string) string {
 	return strings.Join(feats, "+")
 }
 
+// c02MixedPatient: one list whose items hold values of different types, ordered so that an item lacking an element comes
+// before items that have it (a string before a typed reference before date-like primitives before a reference again)
+func c02MixedPatient() proto.Message {
+	ext := func(url string, v *dtpb.Extension_ValueX) *dtpb.Extension {
+		return &dtpb.Extension{Url: fhir.URI(url), Value: v}
+	}
+	typedRef, err := reference.Typed("Practitioner", "pr7")
+	if err != nil {
+		panic(err)
+	}
+	versioned := reference.Weak("Practitioner", "Practitioner/pr7/_history/3")
+	_ = jsonformat.NormalizeReference(versioned)
+	return &ppb.Patient{
+		Id: fhir.ID("mixed"),
+		Extension: []*dtpb.Extension{
+			ext("http://m/0", &dtpb.Extension_ValueX{Choice: &dtpb.Extension_ValueX_StringValue{StringValue: fhir.String("Tom")}}),
+			ext("http://m/1", &dtpb.Extension_ValueX{Choice: &dtpb.Extension_ValueX_Reference{Reference: versioned}}),
+			ext("http://m/2", &dtpb.Extension_ValueX{Choice: &dtpb.Extension_ValueX_DateTime{DateTime: lib.ProtoDateTime("2019-03-04T05:06:07+02:00")}}),
+			ext("http://m/3", &dtpb.Extension_ValueX{Choice: &dtpb.Extension_ValueX_Boolean{Boolean: fhir.Boolean(false)}}),
+			ext("http://m/4", &dtpb.Extension_ValueX{Choice: &dtpb.Extension_ValueX_Date{Date: lib.ProtoDate("2019-03-04")}}),
+			ext("http://m/5", &dtpb.Extension_ValueX{Choice: &dtpb.Extension_ValueX_Reference{Reference: typedRef}}),
+			ext("http://m/6", &dtpb.Extension_ValueX{Choice: &dtpb.Extension_ValueX_Period{Period: &dtpb.Period{Start: lib.ProtoDateTime("2020-01-01"), End: lib.ProtoDateTime("2020-12-31T23:59:59Z")}}}),
+			ext("http://m/7", &dtpb.Extension_ValueX{Choice: &dtpb.Extension_ValueX_Time{Time: lib.ProtoTime("08:30:00")}}),
+			// (no Quantity among them: its element `value` would share the step name with the library's `.value` step on primitives)
+			ext("http://m/8", &dtpb.Extension_ValueX{Choice: &dtpb.Extension_ValueX_Coding{Coding: fhir.Coding("http://s", "c")}}),
+			ext("http://m/9", &dtpb.Extension_ValueX{Choice: &dtpb.Extension_ValueX_Reference{Reference: &dtpb.Reference{Reference: &dtpb.Reference_Fragment{Fragment: fhir.String("c1")}, Display: fhir.String("frag")}}}),
+			ext("http://m/10", &dtpb.Extension_ValueX{Choice: &dtpb.Extension_ValueX_Instant{Instant: lib.ProtoInstant("2020-02-29T10:30:15.250+05:30")}}),
+		},
+	}
+}
+
 func init() {
 	core.Register(&core.Check{
 		ID:          "C02",
@@ -367,7 +402,11 @@ func init() {
 			}
 			return []core.Sub{{Name: "navigation", N: len(names), Note: fmt.Sprintf("146 types x covering instances (depth %d, <=%d variants)", depth, maxVar), Run: func(i int, r *core.Rec) {
 				tn := names[i]
-				for vi, resm := range lib.Family(tn, depth, maxVar) {
+				family := lib.Family(tn, depth, maxVar)
+				if tn == "Patient" {
+					family = append(family, c02MixedPatient())
+				}
+				for vi, resm := range family {
 					res := resm.(fhir.Resource)
 					tree, _, err := lib.ResourceJSON(res)
 					if err != nil {
@@ -427,6 +466,43 @@ func init() {
 							path += "." + c02Ident(nm)
 						}
 						if len(names) > 0 {
+							// a list of primitives (of one type or of several): the values in document order, none dropped
+							if len(nodes) >= 2 {
+								allPrim := true
+								var prims []*c02Node
+								for _, n := range nodes {
+									switch {
+									case n.md != nil && lib.IsPrimitiveMsg(n.md) && n.jval != nil:
+										prims = append(prims, n)
+									case n.md != nil && !lib.IsPrimitiveMsg(n.md) && n.md.Fields().ByName("value") == nil && len(n.kids["value"]) == 0:
+										// a complex item without an element named value contributes nothing to the step
+									default:
+										allPrim = false
+									}
+								}
+								if allPrim && len(prims) >= 2 {
+									nodes := prims
+									gv := eval(path + ".value")
+									r.State("primitive-values-of-a-list")
+									r.Nontrivial(tn, fmt.Sprint(vi), path+".value", gv.Class())
+									bad := ""
+									if gv.Panic != nil {
+										bad = gv.Panic.Key()
+									} else if !gv.OK() || len(gv.Coll) != len(nodes) {
+										bad = "count-differs"
+									} else {
+										for k := range nodes {
+											if d := c02PrimDiff(gv.Coll[k], nodes[k].jval); d != "" {
+												bad = d
+												break
+											}
+										}
+									}
+									if bad != "" {
+										r.Fail("primitive-values-of-a-list|"+bad, core.W{"type": tn, "variant": vi, "src": path + ".value", "got": core.Short(gv.String(), 300), "elements": len(nodes)})
+									}
+								}
+							}
 							check("unindexed", names, path, nodes, false)
 							check("no-root", names, strings.TrimPrefix(path, tn+"."), nodes, false)
 							// exactly one step indexed
